@@ -1208,16 +1208,32 @@ def run(ctx):
 
 
 def replay(ctx, data):
-    """bin/check C08 --replay file: re-run the recorded history on a fresh engine and re-evaluate the direct oracle."""
+    """bin/check C08 --replay file: re-run the recorded history on a fresh engine and re-evaluate the direct oracles."""
     w = data.get('input') or {}
     cands = [w] if 'request' in w else [c['case'] for c in data.get('first_disagreeing_cases', [])]
     rc = 0
     for c in cands:
         r = Runner(ctx)
-        r.snapshot()
-        hits = r.history(c.get('history_after_setup', []) + [c['request']], 'replay')
+        im = r.fresh()
+        prefix = list(c.get('history_after_setup', []))
+        for q in prefix:
+            im.run(q)
+        wire = {'max': c.get('max_response_size')} if c.get('through') == 'KmipSession' or 'max_response_size' in c else None
+        obs = im.run(c['request'], wire=wire)
+
+        def twin_at_same_point():
+            t = r.fresh_twin(r.snapshot())
+            for q in prefix:
+                t.run(q)
+            return t
+        before = len(ctx.violations) + len(ctx.known_hits)
+        hits = oracle(ctx, prefix, c['request'], None, obs, None if wire else twin_at_same_point,
+                      extra=({'max_response_size': wire['max'], 'through': 'KmipSession'} if wire else None))
+        print('replayed', canon(c['request'])[:400])
+        print('  error:', obs['err_message'], ' results:', [(x['op'], x['bid'], x['ok'], x['reason']) for x in obs['results']])
+        print('  per item (store changed, session dirty, placeholder):', obs['trace'])
+        print('  direct oracle:', hits or 'no violation')
         r.close()
-        print('replayed', canon(c['request'])[:300], '->', r.meta[-1]['impl'], 'oracle:', hits or 'no violation')
         if hits:
             rc = 1
     return rc
